@@ -196,8 +196,20 @@ fn display_history(
         if let Some(timestamp) = item.timestamp {
             let local_timestamp = timestamp.with_timezone(&chrono::Local);
             if let Some(time_format) = &config.time_format {
+                use std::fmt::Write as _;
+
+                // N.B. Formatting fails on a conversion specification that chrono does not
+                // know; leave such a format as it is (`to_string()` would panic).
                 let fmt_items = chrono::format::StrftimeItems::new(time_format);
-                formatted_timestamp = local_timestamp.format_with_items(fmt_items).to_string();
+                if write!(
+                    formatted_timestamp,
+                    "{}",
+                    local_timestamp.format_with_items(fmt_items)
+                )
+                .is_err()
+                {
+                    formatted_timestamp.clone_from(time_format);
+                }
             }
         }
 
